@@ -61,6 +61,7 @@ type Case struct {
 	Nest  bool    `json:"nest"`  // body of C.f calls self.g
 	Ee    int     `json:"e"`     // increment performed by the body of g
 	Via   int     `json:"via"`   // 0: call on a value of static type C; i>0: through a value of type {Ii}
+	PS    string  `json:"ps"`    // parameter shape of f: none | res1 | int_res | res_int_res | optres
 }
 
 type Row struct {
@@ -86,6 +87,46 @@ func siteName(c *Case, i int) string { // i is 1-based; NI+1 = C
 
 const sig = "(_ flags: [Bool], _ c: &Counter): Int"
 
+// parameter shapes of f: extra parameters come FIRST, so that "res1" really is the first argument and
+// the other shapes put a resource after a non-resource one. Every body destroys what it receives.
+func fSig(ps string) string {
+	switch ps {
+	case "res1":
+		return "(_ r1: @R, _ flags: [Bool], _ c: &Counter): Int"
+	case "int_res":
+		return "(_ k: Int, _ r1: @R, _ flags: [Bool], _ c: &Counter): Int"
+	case "res_int_res":
+		return "(_ r1: @R, _ k: Int, _ r2: @R, _ flags: [Bool], _ c: &Counter): Int"
+	case "optres":
+		return "(_ k: Int, _ r1: @R?, _ flags: [Bool], _ c: &Counter): Int"
+	}
+	return sig
+}
+
+func fConsume(ps string) string {
+	switch ps {
+	case "res1", "int_res", "optres":
+		return "    destroy r1\n"
+	case "res_int_res":
+		return "    destroy r1\n    destroy r2\n"
+	}
+	return ""
+}
+
+func fArgs(ps string) string {
+	switch ps {
+	case "res1":
+		return "<- create R(), flags, c"
+	case "int_res":
+		return "3, <- create R(), flags, c"
+	case "res_int_res":
+		return "<- create R(), 3, <- create R(), flags, c"
+	case "optres":
+		return "3, <- create R(), flags, c"
+	}
+	return "flags, c"
+}
+
 // Render turns a configuration into a contract-less script.
 func Render(c *Case) string {
 	var b strings.Builder
@@ -94,7 +135,7 @@ func Render(c *Case) string {
 		flags = append(flags, fmt.Sprintf("%v", v))
 		return len(flags) - 1
 	}
-	b.WriteString("access(all) event Ev(s: String)\n")
+	b.WriteString("access(all) event Ev(s: String)\naccess(all) resource R {}\n")
 	b.WriteString("access(all) struct Counter {\n  access(all) var n: Int\n  init() { self.n = 5 }\n" +
 		"  access(all) fun inc(_ d: Int) { self.n = self.n + d }\n}\n")
 
@@ -112,7 +153,11 @@ func Render(c *Case) string {
 				hasPre, hasPost = false, false
 			}
 		}
-		fmt.Fprintf(&b, "  access(all) fun %s%s", name, sig)
+		fsig := sig
+		if !isG {
+			fsig = fSig(c.PS)
+		}
+		fmt.Fprintf(&b, "  access(all) fun %s%s", name, fsig)
 		if !hasPre && !hasPost && !hasBody {
 			b.WriteString("\n")
 			return
@@ -147,6 +192,7 @@ func Render(c *Case) string {
 				if c.Nest && i == c.NI+1 {
 					b.WriteString("    let y = self.g(flags, c)\n    log(\"gret:\".concat(y.toString()))\n")
 				}
+				b.WriteString(fConsume(c.PS))
 				fmt.Fprintf(&b, "    return %d\n", c.Rr)
 			}
 		}
@@ -187,7 +233,7 @@ func Render(c *Case) string {
 	} else {
 		b.WriteString("  let x = C()\n")
 	}
-	b.WriteString("  let v = x.f(flags, c)\n  log(\"n:\".concat(cnt.n.toString()))\n  return v\n}\n")
+	b.WriteString("  let v = x.f(" + fArgs(c.PS) + ")\n  log(\"n:\".concat(cnt.n.toString()))\n  return v\n}\n")
 	return b.String()
 }
 
